@@ -19,7 +19,7 @@ from .c16 import report
 
 def run(ctx):
     build.ensure_harness(["vh-text"])
-    count = ctx.pick(12000, 250000)
+    count = ctx.pick(12000, 160000)
     widths = ctx.pick(3, 7)
     ctx.rule = ("case = (text, width); even cases walk the repository corpus in order, odd cases are layout mutants of a "
                 "random small corpus file (one of: re-spacing of every blank run, blank insertion at token boundaries, "
